@@ -79,10 +79,14 @@ TDone == /\ Is("syncDone") /\ Adv /\ UNCHANGED sN
                \/ Cause(x, Ev.t)                                    \* EarlyOnlyWithCause
          /\ o' = [o EXCEPT ![Ev.ep].wait = FALSE, ![Ev.ep].res = FALSE]
 
-Handled == {"reset", "setN", "resend", "ack", "nack", "closeQuit", "syncWait", "syncDone"}
+\* the harness takes stock (connections still open): no wait may be overdue
+TStock == /\ Is("pgEnd") /\ Adv /\ UNCHANGED <<sN, o>>
+          /\ \A e \in EP : o[e].wait => Ev.t <= o[e].tw + 3 * o[e].rtw + TOL
+
+Handled == {"reset", "setN", "resend", "ack", "nack", "closeQuit", "syncWait", "syncDone", "pgEnd"}
 TSkip == l <= Len(Trace) /\ Ev.ev \notin Handled /\ Adv /\ UNCHANGED <<sN, o>>
 
-Next == TReset \/ TSetN \/ TResend \/ TAck \/ TNack \/ TQuit \/ TWait \/ TDone \/ TSkip
+Next == TReset \/ TSetN \/ TResend \/ TAck \/ TNack \/ TQuit \/ TWait \/ TDone \/ TStock \/ TSkip
 Spec == Init /\ [][Next]_<<l, sN, o>>
 
 TraceAccepted ==
